@@ -249,7 +249,9 @@ PROPS["C01"] = {'claimed': True,
          'rings of 1..3 masters that admit the station, hand-made token traffic (predecessor / stranger / own / invalid addresses), adversarial '
          'injections (tokens, status requests / replies, SC, data replies, garbage, truncated and corrupted frames, two telegrams at once) at all '
          'poll timings incl. periods above Tslot/4, PHY busy answers exact / never / late / random, set_offline / set_online in every state, 0..3 '
-         'scripted applications; non-trivial = polls that transmit, accept a token, deliver a reply / time-out or run a GAP branch',
+         'scripted applications, stable two-master rings over many token visits with small HSA (complete GAP sweeps, late successor inside the GAP, '
+         'GAP replies ready / in-ring / not-ready / slave / wrong source / wrong destination / status != Ok), rings of 3..4 known stations whose '
+         'successor vanishes and returns; every case runs under a wall-clock watchdog (TIMEOUT); non-trivial = polls that transmit, accept a token, deliver a reply / time-out or run a GAP branch',
  'trusted_base': ['hand model coq/Model/Fdl.v of src/fdl/active.rs (all of it: states, legality assertions, poll_inner branch for branch), on top of '
                   "Telegram.v / Phy.v / TokenRing.v / Params.v; tied by differential execution poll by poll on this run's histories (all outputs, "
                   'public getters and the private state through the verif-hooks fingerprint)',
@@ -286,7 +288,9 @@ PROPS["C05"] = {'claimed': True,
          'rings of 1..3 masters that admit the station, hand-made token traffic (predecessor / stranger / own / invalid addresses), adversarial '
          'injections (tokens, status requests / replies, SC, data replies, garbage, truncated and corrupted frames, two telegrams at once) at all '
          'poll timings incl. periods above Tslot/4, PHY busy answers exact / never / late / random, set_offline / set_online in every state, 0..3 '
-         'scripted applications; non-trivial = polls that transmit, accept a token, deliver a reply / time-out or run a GAP branch',
+         'scripted applications, stable two-master rings over many token visits with small HSA (complete GAP sweeps, late successor inside the GAP, '
+         'GAP replies ready / in-ring / not-ready / slave / wrong source / wrong destination / status != Ok), rings of 3..4 known stations whose '
+         'successor vanishes and returns; every case runs under a wall-clock watchdog (TIMEOUT); non-trivial = polls that transmit, accept a token, deliver a reply / time-out or run a GAP branch',
  'trusted_base': ['hand model coq/Model/Fdl.v of src/fdl/active.rs (all of it: states, legality assertions, poll_inner branch for branch), on top of '
                   "Telegram.v / Phy.v / TokenRing.v / Params.v; tied by differential execution poll by poll on this run's histories (all outputs, "
                   'public getters and the private state through the verif-hooks fingerprint)',
@@ -322,7 +326,9 @@ PROPS["C06"] = {'claimed': False,
          'rings of 1..3 masters that admit the station, hand-made token traffic (predecessor / stranger / own / invalid addresses), adversarial '
          'injections (tokens, status requests / replies, SC, data replies, garbage, truncated and corrupted frames, two telegrams at once) at all '
          'poll timings incl. periods above Tslot/4, PHY busy answers exact / never / late / random, set_offline / set_online in every state, 0..3 '
-         'scripted applications; non-trivial = polls that transmit, accept a token, deliver a reply / time-out or run a GAP branch',
+         'scripted applications, stable two-master rings over many token visits with small HSA (complete GAP sweeps, late successor inside the GAP, '
+         'GAP replies ready / in-ring / not-ready / slave / wrong source / wrong destination / status != Ok), rings of 3..4 known stations whose '
+         'successor vanishes and returns; every case runs under a wall-clock watchdog (TIMEOUT); non-trivial = polls that transmit, accept a token, deliver a reply / time-out or run a GAP branch',
  'trusted_base': ['hand model coq/Model/Fdl.v of src/fdl/active.rs (all of it: states, legality assertions, poll_inner branch for branch), on top of '
                   "Telegram.v / Phy.v / TokenRing.v / Params.v; tied by differential execution poll by poll on this run's histories (all outputs, "
                   'public getters and the private state through the verif-hooks fingerprint)',
@@ -350,7 +356,9 @@ PROPS["C11"] = {'claimed': False,
          'rings of 1..3 masters that admit the station, hand-made token traffic (predecessor / stranger / own / invalid addresses), adversarial '
          'injections (tokens, status requests / replies, SC, data replies, garbage, truncated and corrupted frames, two telegrams at once) at all '
          'poll timings incl. periods above Tslot/4, PHY busy answers exact / never / late / random, set_offline / set_online in every state, 0..3 '
-         'scripted applications; non-trivial = polls that transmit, accept a token, deliver a reply / time-out or run a GAP branch',
+         'scripted applications, stable two-master rings over many token visits with small HSA (complete GAP sweeps, late successor inside the GAP, '
+         'GAP replies ready / in-ring / not-ready / slave / wrong source / wrong destination / status != Ok), rings of 3..4 known stations whose '
+         'successor vanishes and returns; every case runs under a wall-clock watchdog (TIMEOUT); non-trivial = polls that transmit, accept a token, deliver a reply / time-out or run a GAP branch',
  'trusted_base': ['hand model coq/Model/Fdl.v of src/fdl/active.rs (all of it: states, legality assertions, poll_inner branch for branch), on top of '
                   "Telegram.v / Phy.v / TokenRing.v / Params.v; tied by differential execution poll by poll on this run's histories (all outputs, "
                   'public getters and the private state through the verif-hooks fingerprint)',
@@ -378,7 +386,9 @@ PROPS["C12"] = {'claimed': False,
          'rings of 1..3 masters that admit the station, hand-made token traffic (predecessor / stranger / own / invalid addresses), adversarial '
          'injections (tokens, status requests / replies, SC, data replies, garbage, truncated and corrupted frames, two telegrams at once) at all '
          'poll timings incl. periods above Tslot/4, PHY busy answers exact / never / late / random, set_offline / set_online in every state, 0..3 '
-         'scripted applications; non-trivial = polls that transmit, accept a token, deliver a reply / time-out or run a GAP branch',
+         'scripted applications, stable two-master rings over many token visits with small HSA (complete GAP sweeps, late successor inside the GAP, '
+         'GAP replies ready / in-ring / not-ready / slave / wrong source / wrong destination / status != Ok), rings of 3..4 known stations whose '
+         'successor vanishes and returns; every case runs under a wall-clock watchdog (TIMEOUT); non-trivial = polls that transmit, accept a token, deliver a reply / time-out or run a GAP branch',
  'trusted_base': ['hand model coq/Model/Fdl.v of src/fdl/active.rs (all of it: states, legality assertions, poll_inner branch for branch), on top of '
                   "Telegram.v / Phy.v / TokenRing.v / Params.v; tied by differential execution poll by poll on this run's histories (all outputs, "
                   'public getters and the private state through the verif-hooks fingerprint)',
@@ -406,7 +416,9 @@ PROPS["C13"] = {'claimed': False,
          'rings of 1..3 masters that admit the station, hand-made token traffic (predecessor / stranger / own / invalid addresses), adversarial '
          'injections (tokens, status requests / replies, SC, data replies, garbage, truncated and corrupted frames, two telegrams at once) at all '
          'poll timings incl. periods above Tslot/4, PHY busy answers exact / never / late / random, set_offline / set_online in every state, 0..3 '
-         'scripted applications; non-trivial = polls that transmit, accept a token, deliver a reply / time-out or run a GAP branch',
+         'scripted applications, stable two-master rings over many token visits with small HSA (complete GAP sweeps, late successor inside the GAP, '
+         'GAP replies ready / in-ring / not-ready / slave / wrong source / wrong destination / status != Ok), rings of 3..4 known stations whose '
+         'successor vanishes and returns; every case runs under a wall-clock watchdog (TIMEOUT); non-trivial = polls that transmit, accept a token, deliver a reply / time-out or run a GAP branch',
  'trusted_base': ['hand model coq/Model/Fdl.v of src/fdl/active.rs (all of it: states, legality assertions, poll_inner branch for branch), on top of '
                   "Telegram.v / Phy.v / TokenRing.v / Params.v; tied by differential execution poll by poll on this run's histories (all outputs, "
                   'public getters and the private state through the verif-hooks fingerprint)',
@@ -434,7 +446,9 @@ PROPS["C15"] = {'claimed': False,
          'rings of 1..3 masters that admit the station, hand-made token traffic (predecessor / stranger / own / invalid addresses), adversarial '
          'injections (tokens, status requests / replies, SC, data replies, garbage, truncated and corrupted frames, two telegrams at once) at all '
          'poll timings incl. periods above Tslot/4, PHY busy answers exact / never / late / random, set_offline / set_online in every state, 0..3 '
-         'scripted applications; non-trivial = polls that transmit, accept a token, deliver a reply / time-out or run a GAP branch',
+         'scripted applications, stable two-master rings over many token visits with small HSA (complete GAP sweeps, late successor inside the GAP, '
+         'GAP replies ready / in-ring / not-ready / slave / wrong source / wrong destination / status != Ok), rings of 3..4 known stations whose '
+         'successor vanishes and returns; every case runs under a wall-clock watchdog (TIMEOUT); non-trivial = polls that transmit, accept a token, deliver a reply / time-out or run a GAP branch',
  'trusted_base': ['hand model coq/Model/Fdl.v of src/fdl/active.rs (all of it: states, legality assertions, poll_inner branch for branch), on top of '
                   "Telegram.v / Phy.v / TokenRing.v / Params.v; tied by differential execution poll by poll on this run's histories (all outputs, "
                   'public getters and the private state through the verif-hooks fingerprint)',
